@@ -158,12 +158,22 @@ def busyToPf (c : Cfg) (s : St) (t : Nat) : Bool :=
 def readyTo (c : Cfg) (s : St) (t : Nat) : Bool :=
   c.isPf t || (decide (c.capOf t - s.c t > ((s.incOf t).length : Int)) && !busyToPf c s t)
 
-/-- `find_available_ball_in_path(start)` along the `_current_target` chain -/
+/-- `find_available_ball_in_path(start)` along the `_current_target` chain.  A device whose eject loop has taken its next
+request from the queue (`_current_target` set) but still waits for its count to be valid / for no incoming balls before it
+enters `waiting_for_ball` shows state idle: in the ledger the request is still the head of the queue (`dequeue` happens
+with the state change).  While a ball is registered as incoming at such a device that head *is* its `_current_target`
+(the eject cannot be cancelled yet - no cancel future - but the path is found). -/
 def findAvail (c : Cfg) (s : St) (start : Nat) : Nat → Nat → Bool
   | 0, _ => false
   | fuel + 1, t =>
     match s.cu t with
-    | none => decide (s.a t > 0)
+    | none =>
+      match s.queue.getD t [] with
+      | u :: _ =>
+        if s.ph t == .idle && !(s.incOf t).isEmpty then
+          if u = start then false else if c.isPf u then true else findAvail c s start fuel u
+        else decide (s.a t > 0)
+      | [] => decide (s.a t > 0)
     | some u => if u = start then false else if c.isPf u then true else findAvail c s start fuel u
 
 /-- `_skipping_ball` runs while the device waits for the ball of its current eject, or while it is idle -/
